@@ -4,7 +4,7 @@ import random
 import numpy as np
 
 from vlib import model as M, compare as C, contracts, util
-from vlib.iotrace import TraceIO, union, covered
+from vlib.iotrace import TraceIO, TraceRawIO, union, covered
 
 ID = 'C19'
 LEVEL = 'exploration'
@@ -19,7 +19,7 @@ RULE = ('multi-segment multi-chunk model files with several channels; non-trivia
         'other channels and has >=2 chunks; distinct = (per-segment signatures, channel)')
 ASSUMPTIONS = ['"constant number of bytes per segment touched" = the 4-byte segment tag the reader verifies before reading a segment',
                'an empty request may touch at most the one chunk containing its offset']
-REQUIRED = ['stepped_slices', 'short_last_files', 'truncated_files', 'daqmx_files', 'requests', 'reads_checked', 'cached_index_checked', 'bytes_allowed', 'requests_partial']
+REQUIRED = ['raw_stream_files', 'stepped_slices', 'short_last_files', 'truncated_files', 'daqmx_files', 'requests', 'reads_checked', 'cached_index_checked', 'bytes_allowed', 'requests_partial']
 N = {'quick': 800, 'thorough': 200000}
 
 
@@ -208,7 +208,9 @@ def run_case(case, ctx):
         ctx.count('truncated_files')
     ctx.evaluation()
     exp = M.Expected(segs)
-    stream = TraceIO(blob)
+    raw_stream = case['s'] % 3 == 0
+    stream = TraceRawIO(blob) if raw_stream else TraceIO(blob)       # a third of the files come as an unbuffered raw stream
+    ctx.count('raw_stream_files' if raw_stream else 'bytesio_files')
     tf = TdmsFile.open(stream, raw_timestamps=True)
     desc = [s.describe() for s in segs][:5]
     ctx.sample({'case': case, 'segments': desc[:2], 'layout': [(l['start'], l['data_start'], l['end']) for l in lay.segs]}, limit=2)
